@@ -15,6 +15,9 @@
 //	p, err := dvh.Start(dvh.Opts{Dir: d})                       // new process on directory d (created if absent)
 //	p, err := dvh.Start(dvh.Opts{Dir: d, Crash: "meta:7:after"}) // dies (exit 77) right after its 7th metadata Put/Delete
 //	                                                            // classes: meta | data; modes: before | after
+//	                                                            // class txn: the N-th read-write transaction of the underlying badger
+//	                                                            // DB (needs repo_patches/C04-hook.diff in the DVID tree; never reached without)
+//	hook, n, interior, loose := p.Txns()                        // transactions so far; those inside a store call that went on to another one
 //	status, body, alive := p.Get(url) / p.Post(url, body) / p.PostJSON(url, v) / p.HTTP(method, url, body)
 //	meta, data, trace := p.Writes()                             // store writes so far; trace of metadata keys ("P4:1")
 //	r, alive := p.Call("delrepo"|"deldata"|"iid"|"mutid"|"rawcount", uuid, name) // exported package functions
@@ -86,6 +89,11 @@ type Resp struct {
 	N        uint64   `json:"n,omitempty"`        // iid / mutid result
 	MetaDone int      `json:"metadone,omitempty"` // writes whose store call has returned
 	DataDone int      `json:"datadone,omitempty"`
+	// read-write transactions of the underlying badger DB (only with repo_patches/C04-hook.diff applied)
+	TxnHook  bool  `json:"txnhook,omitempty"`
+	Txn      int   `json:"txn,omitempty"`      // completed so far
+	Interior []int `json:"interior,omitempty"` // ordinals followed by another transaction of the same store call
+	Loose    []int `json:"loose,omitempty"`    // ordinals outside any counted store call
 }
 
 // MaybeChild turns the process into the child server when it was started with the marker.
@@ -100,7 +108,7 @@ func MaybeChild() {
 func Main(args []string) {
 	fs := flag.NewFlagSet("dvh", flag.ExitOnError)
 	dir := fs.String("dir", "", "base directory of the stores")
-	crash := fs.String("crash", "", "class:N:mode — die at the N-th write of class meta|data, mode before|after")
+	crash := fs.String("crash", "", "class:N:mode — die at the N-th write of class meta|data (or N-th badger transaction: txn), mode before|after")
 	verbose := fs.Bool("v", false, "keep DVID's log output on stderr")
 	mutStart := fs.Uint64("mutstart", 0, "datastore.Config.MutationStart")
 	instStart := fs.Uint64("inststart", 0, "datastore.Config.InstanceStart")
@@ -188,7 +196,8 @@ func Main(args []string) {
 				case "writes":
 					m, d, tr := crashkv.Counts()
 					md, dd := crashkv.Done()
-					say(Resp{Meta: m, Data: d, Trace: tr, MetaDone: md, DataDone: dd})
+					tn, inner, outside := crashkv.Txns()
+					say(Resp{Meta: m, Data: d, Trace: tr, MetaDone: md, DataDone: dd, TxnHook: crashkv.TxnHook(), Txn: tn, Interior: inner, Loose: outside})
 				case "sleep":
 					time.Sleep(time.Duration(rq.Ms) * time.Millisecond)
 					say(Resp{S: 200})
@@ -223,6 +232,9 @@ func Main(args []string) {
 						base := m
 						if class == "data" {
 							base = d
+						}
+						if class == "txn" {
+							base, _, _ = crashkv.Txns()
 						}
 						crashkv.Plan(class, base+k, mode)
 						say(Resp{S: 200})
